@@ -76,15 +76,22 @@ ConstNames(desc, req) == {w \in DOMAIN desc[req.mod] : /\ desc[req.mod][w].kind 
                                                        /\ (req.name = "" \/ req.name = w)}
 (* "describe <module>" / "describe <module>:<accessible>": the part of the structure report, *)
 (* for described names only; e.same: the reply is identical to that part of the full report   *)
+(* DescriptionStable: the structure report is a function of the class chain and the configuration only.  "describe"  *)
+(* of the whole node (req.mod = "") after ANY history - reads, changes, polls (the poller calling read_<p>), driver   *)
+(* side assignments, read errors - is identical to the first report (e.same compares the full report).               *)
 JudgeDescribe(desc, e) ==
   LET req == e.req IN
-  IF req.mod \in DOMAIN desc /\ (req.name = "" \/ req.name \in DOMAIN desc[req.mod])
+  IF req.mod = "" THEN (IF e.cls = "ok" /\ e.same THEN "" ELSE "DescriptionStable")
+  ELSE IF req.mod \in DOMAIN desc /\ (req.name = "" \/ req.name \in DOMAIN desc[req.mod])
   THEN (IF e.cls = "ok" /\ e.same THEN "" ELSE "describe.part")
   ELSE (IF e.cls \in NoSuch THEN "" ELSE "undescribed.reachable")
 
 Judge(desc, e) ==
   LET req == e.req IN
   IF req.act = "describe" THEN JudgeDescribe(desc, e)
+  \* internal history steps (no request): the poller calls read_<p>, the driver assigns a value; only what they
+  \* announce is judged (JudgeUpdates)
+  ELSE IF req.act \in {"poll", "assign"} THEN ""
   ELSE IF ~Known(desc, req) THEN (IF e.cls \in NoSuch THEN "" ELSE "undescribed.reachable")
   ELSE IF req.act = "activate"
        THEN IF e.cls \in NoSuch /\ (req.name = "" \/ desc[req.mod][req.name].kind = "param") THEN "described.unreachable"
@@ -200,6 +207,8 @@ EventsOf(c, o) ==
                THEN <<[mod |-> o.upd.mod, name |-> o.upd.name, v |-> o.upd.v, imp |-> TRUE, err |-> (o.upd.v = ErrVal)]>>
                ELSE <<>>]
       : k \in (IF o.reply.ok THEN {"ok"} ELSE o.reply.cls)}
+(* in the model the description is a function of the shape, and the shape never changes *)
+DescriptionStable == [][Described(shape)' = Described(shape)]_vars
 DescriptionTrue ==
   [][\A e \in EventsOf(cache, last') : Judge(Described(shape), e) = "" /\ JudgeUpdates(Described(shape), e) = ""]_vars
 =============================================================================
